@@ -31,53 +31,95 @@ func isCeilFunc(fn *ssa.Function) (bool, string) {
 		return false, "quotient of " + l.String()
 	}
 	// idiom 1: q := a/b; if a%b != 0 { q++ }
-	ph, ok := v.(*ssa.Phi)
-	if !ok || len(ph.Edges) != 2 {
-		return false, "return value is " + canon(v)
+	a, b, ok, why := ceilShape(v)
+	if !ok {
+		return false, why
 	}
-	isQuo := func(x ssa.Value) bool {
+	if a != fn.Params[0] || b != fn.Params[1] {
+		return false, "ceiling of " + canon(a) + " / " + canon(b)
+	}
+	return true, "a/b + [a%b != 0]"
+}
+
+// ceilShape recognises the value  φ(a/b, a/b + 1)  whose +1 edge is taken exactly when a%b ≠ 0.
+func ceilShape(v ssa.Value) (a, b ssa.Value, ok bool, why string) {
+	ph, isPhi := v.(*ssa.Phi)
+	if !isPhi || len(ph.Edges) != 2 {
+		return nil, nil, false, "value is " + canon(v)
+	}
+	same := func(x, y ssa.Value) bool { return x == y || canon(x) == canon(y) }
+	quo := func(x ssa.Value) (ssa.Value, ssa.Value, bool) {
 		q, ok := x.(*ssa.BinOp)
-		return ok && q.Op == token.QUO && q.X == fn.Params[0] && q.Y == fn.Params[1]
-	}
-	isQuoPlus1 := func(x ssa.Value) bool {
-		a, ok := x.(*ssa.BinOp)
-		if !ok || a.Op != token.ADD {
-			return false
+		if !ok || q.Op != token.QUO {
+			return nil, nil, false
 		}
-		c, okc := a.Y.(*ssa.Const)
-		return okc && c.Int64() == 1 && isQuo(a.X)
+		return q.X, q.Y, true
 	}
 	for i, e := range ph.Edges {
 		o := ph.Edges[1-i]
-		if !(isQuoPlus1(e) && isQuo(o)) {
+		qa, qb, okq := quo(o)
+		if !okq {
+			continue
+		}
+		inc, okInc := e.(*ssa.BinOp)
+		if !okInc || inc.Op != token.ADD {
+			continue
+		}
+		one, base := inc.Y, inc.X
+		if c, okc := one.(*ssa.Const); !okc || c.Value == nil || c.Int64() != 1 {
+			one, base = inc.X, inc.Y
+			if c, okc := one.(*ssa.Const); !okc || c.Value == nil || c.Int64() != 1 {
+				continue
+			}
+		}
+		ba, bb, okb := quo(base)
+		if !okb || !same(ba, qa) || !same(bb, qb) {
 			continue
 		}
 		// the +1 edge must be taken exactly when a%b != 0
 		pred := ph.Block().Preds[i]
 		if len(pred.Preds) != 1 {
-			return false, "increment block has several predecessors"
+			return nil, nil, false, "increment block has several predecessors"
 		}
 		condBlk := pred.Preds[0]
-		iff, ok := condBlk.Instrs[len(condBlk.Instrs)-1].(*ssa.If)
-		if !ok {
-			return false, "no condition before the increment"
+		if condBlk != ph.Block().Preds[1-i] {
+			return nil, nil, false, "increment is not a simple if without else"
 		}
-		cmp, ok := iff.Cond.(*ssa.BinOp)
-		if !ok {
-			return false, "condition is " + canon(iff.Cond)
+		iff, okIf := condBlk.Instrs[len(condBlk.Instrs)-1].(*ssa.If)
+		if !okIf {
+			return nil, nil, false, "no condition before the increment"
 		}
-		rem, okr := cmp.X.(*ssa.BinOp)
-		z, okz := cmp.Y.(*ssa.Const)
-		if !okr || !okz || rem.Op != token.REM || rem.X != fn.Params[0] || rem.Y != fn.Params[1] || z.Int64() != 0 {
-			return false, "condition is " + canon(cmp)
-		}
+		cond := iff.Cond
 		takenOnTrue := condBlk.Succs[0] == pred
-		if (cmp.Op == token.NEQ && takenOnTrue) || (cmp.Op == token.EQL && !takenOnTrue) || (cmp.Op == token.GTR && takenOnTrue) {
-			return true, "a/b + [a%b != 0]"
+		if u, isU := cond.(*ssa.UnOp); isU && u.Op == token.NOT {
+			cond, takenOnTrue = u.X, !takenOnTrue
 		}
-		return false, "increment taken under " + canon(cmp) + fmt.Sprintf(" (true-branch=%v)", takenOnTrue)
+		cmp, okc := cond.(*ssa.BinOp)
+		if !okc {
+			return nil, nil, false, "condition is " + canon(iff.Cond)
+		}
+		remV, zero := cmp.X, cmp.Y
+		op := cmp.Op
+		if isZeroConst(remV) {
+			remV, zero = zero, remV
+			switch op {
+			case token.GTR:
+				op = token.LSS
+			case token.LSS:
+				op = token.GTR
+			}
+		}
+		rem, okr := remV.(*ssa.BinOp)
+		if !okr || !isZeroConst(zero) || rem.Op != token.REM || !same(rem.X, qa) || !same(rem.Y, qb) {
+			return nil, nil, false, "condition is " + canon(cmp)
+		}
+		// a%b > 0 is a%b ≠ 0 only for non-negative a: accept it, as the original helper does, only alongside ≠ / ==
+		if (op == token.NEQ && takenOnTrue) || (op == token.EQL && !takenOnTrue) || (op == token.GTR && takenOnTrue) {
+			return qa, qb, true, "a/b + [a%b != 0]"
+		}
+		return nil, nil, false, "increment taken under " + canon(cmp) + fmt.Sprintf(" (true-branch=%v)", takenOnTrue)
 	}
-	return false, "return value is " + canon(v)
+	return nil, nil, false, "value is " + canon(v)
 }
 
 // quorumForm normalises `X op Y` (X,Y int64; Y possibly ⌈a/b⌉ or ⌊a/b⌋) into a
@@ -111,6 +153,16 @@ func (p *P) quorumForm(op token.Token, x0, y0 ssa.Value) (Lin, string, bool) {
 					return f, fmt.Sprintf("x %s ⌈a/%d⌉", op, b), true
 				}
 			}
+		}
+	}
+	if ca, cb, isCeil, _ := ceilShape(y); isCeil {
+		if bc, ok := cb.(*ssa.Const); ok && bc.Value != nil && bc.Int64() > 0 {
+			b := bc.Int64()
+			f := lx.scale(b).add(linOf(ca), -1)
+			if strict {
+				f = f.add(linConst(b), -1)
+			}
+			return f, fmt.Sprintf("x %s ⌈a/%d⌉ (inline)", op, b), true
 		}
 	}
 	if q, ok := y.(*ssa.BinOp); ok && q.Op == token.QUO {
@@ -350,7 +402,12 @@ func c08(p *P) {
 		if n == 0 {
 			r.Undecided("C08.R4", "scalePower: success return", "none found")
 		}
-		p.guarded("C08.R4", fn, okReturns(fn), callResult("total ≥ power", "github.com/filecoin-project/go-state-types/big.Int.LessThan", `^github.com/filecoin-project/go-state-types/big\.Int\.LessThan\(\$1, \$0\)$`, -1, avTrue))
+		p.guarded("C08.R4", fn, okReturns(fn), union(
+			callResult("total ≥ power", "github.com/filecoin-project/go-state-types/big.Int.LessThan", `^github.com/filecoin-project/go-state-types/big\.Int\.LessThan\(\$1, \$0\)$`, -1, avTrue),
+			callResult("total ≥ power", "github.com/filecoin-project/go-state-types/big.Int.GreaterThan", `^github.com/filecoin-project/go-state-types/big\.Int\.GreaterThan\(\$0, \$1\)$`, -1, avTrue),
+			callResult("total ≥ power", "github.com/filecoin-project/go-state-types/big.Int.GreaterThanEqual", `^github.com/filecoin-project/go-state-types/big\.Int\.GreaterThanEqual\(\$1, \$0\)$`, -1, avFalse),
+			callResult("total ≥ power", "github.com/filecoin-project/go-state-types/big.Int.LessThanEqual", `^github.com/filecoin-project/go-state-types/big\.Int\.LessThanEqual\(\$0, \$1\)$`, -1, avFalse),
+		).named("total ≥ power"))
 		mach := 0
 		allValues(fn, func(v ssa.Value) {
 			if b, ok := v.(*ssa.BinOp); ok && (b.Op == token.MUL || b.Op == token.QUO || b.Op == token.SHL) {
